@@ -8,7 +8,7 @@
 a_real a_trajbell_gen(a_trajbell *ctx, a_real jm, a_real am, a_real vm,
                       a_real p0, a_real p1, a_real v0, a_real v1)
 {
-    a_real p, ac, tj, _2tj, _2v0, _2v1, _tmp, temp, v0pv1, _2v02pv12;
+    a_real p, ac, tj, _2tj, _2v0, _2v1, _tmp, temp, root, v0pv1, _2v02pv12;
     if (jm < 0) { jm = -jm; }
     if (am < 0) { am = -am; }
     if (vm < 0) { vm = -vm; }
@@ -71,9 +71,13 @@ a_real a_trajbell_gen(a_trajbell *ctx, a_real jm, a_real am, a_real vm,
         ctx->tdj = tj;
         _tmp = am * tj;
         temp = _tmp * _tmp + _2v02pv12 + (4 * p - _2tj * v0pv1) * am;
-        _tmp += a_real_sqrt(temp);
-        temp = 2 * am;
-        ctx->ta = (_tmp - _2v0) / temp;
+        root = a_real_sqrt(temp);
+        /* ta = (am*tj + root - 2*v0) / (2*am); when 2*v0 > am*tj the difference root - (2*v0 - am*tj)
+           cancels, so it is formed as (root^2 - (2*v0 - am*tj)^2) / (root + (2*v0 - am*tj)) */
+        temp = _2v0 - _tmp;
+        if (temp > 0) { temp = (2 * (v1 - v0) * (v0pv1 - _tmp) + 4 * am * p) / (root + temp); }
+        else { temp = root - temp; }
+        ctx->ta = temp / (2 * am);
         if (ctx->ta < 0)
         {
             if (am == ctx->am || ac < ctx->dm)
@@ -94,7 +98,10 @@ a_real a_trajbell_gen(a_trajbell *ctx, a_real jm, a_real am, a_real vm,
             am += ac;
             continue;
         }
-        ctx->td = (_tmp - _2v1) / temp;
+        temp = _2v1 - _tmp;
+        if (temp > 0) { temp = (2 * (v0 - v1) * (v0pv1 - _tmp) + 4 * am * p) / (root + temp); }
+        else { temp = root - temp; }
+        ctx->td = temp / (2 * am);
         if (ctx->td < 0)
         {
             if (am == ctx->am || ac < ctx->dm)
